@@ -244,6 +244,8 @@ def aggregate(results):
             agg["viol"].append(v)
         if r.get("sample") is not None and len(agg["samples"]) < 4 and r.get("nontrivial"):
             agg["samples"].append(r["sample"])
+        if r["status"] == "timeout":
+            agg.setdefault("timeouts", []).append(r.get("cid"))
         if r["status"] == "error":
             agg["errors"].append({"cid": r.get("cid"), "error": r.get("error")})
     return agg
@@ -389,6 +391,9 @@ def run_check(pid, tier, seed, jobs=None, replay=None, only=None):
     print("  observed: " + ", ".join("%s=%s" % kv for kv in list(ev.items())[:40]))
     if cov["distinct"]:
         print("  distinct: " + ", ".join("%s=%s" % kv for kv in cov["distinct"].items()))
+    if agg.get("timeouts"):
+        cov["timeout_cases"] = agg["timeouts"][:20]
+        print("  per-case watchdog fired for: %s" % agg["timeouts"][:20])
     if "rejections" in agg["sets"]:
         cov["rejection_messages"] = sorted(agg["sets"]["rejections"])[:12]
         print("  rejections: " + " | ".join(cov["rejection_messages"][:6]))
